@@ -300,15 +300,18 @@ class PDFXRefStream(PDFBaseXRef):
         return self.trailer
 
     def get_objids(self) -> Iterator[int]:
+        index = 0
         for start, nobjs in self.ranges:
             for i in range(nobjs):
                 assert self.entlen is not None
                 assert self.data is not None
-                offset = self.entlen * i
+                # entries of all /Index ranges are stored back to back
+                offset = self.entlen * (index + i)
                 ent = self.data[offset : offset + self.entlen]
                 f1 = nunpack(ent[: self.fl1], 1)
                 if f1 == 1 or f1 == 2:
                     yield start + i
+            index += nobjs
 
     def get_pos(self, objid: int) -> Tuple[Optional[int], int, int]:
         index = 0
